@@ -1,3 +1,156 @@
 package main
 
-func c09Graphs(args []string) error { return nil }
+// C09, graph level: gate graphs enumerated by specs/OptGen.tla are built through the public
+// circuits.Compiler API and pushed through the real ConstPropagate / ShortCircuitXORZero / Prune /
+// Compile under {prune on, off} x {Yao, GMW}; the compiled circuit's truth table must equal the
+// truth table of the original graph, and every gate input must be assigned before use.
+
+import (
+	"encoding/json"
+	"fmt"
+	"math/big"
+
+	"github.com/markkurossi/mpc/circuit"
+	"github.com/markkurossi/mpc/compiler/circuits"
+	"github.com/markkurossi/mpc/compiler/utils"
+	"github.com/markkurossi/mpc/types"
+)
+
+type ogGate struct {
+	Op string `json:"op"`
+	A  int    `json:"a"`
+	B  int    `json:"b"`
+	O  int    `json:"o"`
+}
+
+type ogCase struct {
+	Nin   int      `json:"nin"`
+	Gates []ogGate `json:"gates"`
+	Outs  []int    `json:"outs"`
+	Table [][]int  `json:"table"`
+}
+
+func buildGraph(gc *ogCase, target utils.Target, prune bool) (c *circuit.Circuit, err error) {
+	defer func() {
+		if x := recover(); x != nil {
+			err = fmt.Errorf("panic: %v", x)
+		}
+	}()
+	params := utils.NewParams()
+	params.Target = target
+	params.OptPruneGates = prune
+	calloc := circuits.NewAllocator()
+	ins := calloc.Wires(types.Size(gc.Nin))
+	wires := map[int]*circuits.Wire{}
+	for i, w := range ins {
+		wires[i+1] = w
+	}
+	for _, g := range gc.Gates {
+		wires[g.O] = calloc.Wire()
+	}
+	// circuit outputs are dedicated wires fed through identity gates, as ssa/circuitgen.go creates them
+	var outs []*circuits.Wire
+	for range gc.Outs {
+		o := calloc.Wire()
+		o.SetOutput(true)
+		outs = append(outs, o)
+	}
+	io := func(n int, name string) circuit.IO {
+		return circuit.IO{circuit.IOArg{Name: name, Type: types.Info{Type: types.TUint, IsConcrete: true, Bits: types.Size(n)}}}
+	}
+	cc, err := circuits.NewCompiler(params, calloc, io(gc.Nin, "in"), io(len(outs), "out"), ins, outs)
+	if err != nil {
+		return nil, err
+	}
+	w := func(id int) *circuits.Wire {
+		switch id {
+		case 0:
+			return cc.ZeroWire()
+		case -1:
+			return cc.OneWire()
+		}
+		return wires[id]
+	}
+	for _, g := range gc.Gates {
+		if g.Op == "INV" {
+			cc.INV(w(g.A), wires[g.O])
+		} else {
+			cc.AddGate(calloc.BinaryGate(opOf(g.Op), w(g.A), w(g.B), wires[g.O]))
+		}
+	}
+	for i, o := range gc.Outs {
+		cc.ID(w(o), outs[i])
+	}
+	cc.ConstPropagate()
+	cc.ShortCircuitXORZero()
+	if prune {
+		cc.Prune()
+	}
+	return cc.Compile(), nil
+}
+
+func c09Graphs(args []string) error {
+	out, err := newND(args[1])
+	if err != nil {
+		return err
+	}
+	defer out.close()
+	idx := 0
+	nviol := 0
+	return readND(args[0], func(raw json.RawMessage) error {
+		var gc ogCase
+		if err := json.Unmarshal(raw, &gc); err != nil {
+			return err
+		}
+		if nviol >= 8 {
+			return nil
+		}
+		res := &Result{Case: idx, Class: "graph", Nontrivial: len(gc.Gates) >= 2}
+		for _, tg := range targets {
+			for _, prune := range []bool{false, true} {
+				cfg := fmt.Sprintf("%s/prune=%v", tg.name, prune)
+				c, err := buildGraph(&gc, tg.t, prune)
+				if err != nil {
+					res.viol("graph-build:"+cfg, "the passes fail on a graph of %d gates under %s: %v (gates %v outs %v)", len(gc.Gates), cfg, err, gc.Gates, gc.Outs)
+					continue
+				}
+				// Topological: every gate input is an input wire or the output of an earlier gate
+				def := map[circuit.Wire]bool{}
+				for i := 0; i < gc.Nin; i++ {
+					def[circuit.Wire(i)] = true
+				}
+				for gi, g := range c.Gates {
+					if !def[g.Input0] || (g.Op != circuit.INV && !def[g.Input1]) {
+						res.viol("not-topological:"+cfg, "compiled gate %d reads a wire that is not assigned yet under %s (gates %v outs %v)", gi, cfg, gc.Gates, gc.Outs)
+						break
+					}
+					def[g.Output] = true
+				}
+				for i, row := range gc.Table {
+					got, err := c.Compute([]*big.Int{big.NewInt(int64(i))})
+					if err != nil {
+						res.viol("compute-error", "%v", err)
+						break
+					}
+					want := 0
+					for j, b := range row {
+						want |= b << uint(j)
+					}
+					if got[0].Cmp(big.NewInt(int64(want))) != 0 {
+						res.viol("graph-function-changed:"+cfg, "under %s the compiled circuit maps input %d to %v, the original graph to %d (gates %v outs %v)", cfg, i, got[0], want, gc.Gates, gc.Outs)
+						break
+					}
+				}
+			}
+		}
+		if len(res.Viol) > 0 {
+			nviol++
+		}
+		if idx < 2 {
+			res.Sample = gc
+		}
+		idx++
+		out.put(res)
+		return nil
+	})
+}
